@@ -54,7 +54,24 @@ def run(ctx):
            "paths leave it" % (len(first), len(same)), site=site, key="C10.first|write_shape")
     sites = field_assign_sites(F, "header::Header", "shape_type")
     owners = sorted(set(f["def"] for f, _ in sites))
-    ctx.ob("C10.first", "who writes Header.shape_type", owners == [fw["def"]],
+    # a private helper that only write_shape (or another such helper) calls is part of write_shape
+    allowed = {fw["def"]}
+    refs = {}
+    for h in F.identity_fns():
+        if h.get("krate") != F.crate:
+            continue
+        for r in util.fn_refs(h):
+            g = util.local_fn(F, r)
+            if g is not None:
+                refs.setdefault(g["def"], set()).add(h["def"].split("::{closure")[0])
+    changed = True
+    while changed:
+        changed = False
+        for o in owners:
+            if o not in allowed and refs.get(o) and refs[o] <= allowed:
+                allowed.add(o)
+                changed = True
+    ctx.ob("C10.first", "who writes Header.shape_type", bool(owners) and set(owners) <= allowed and fw["def"] in allowed,
            "assignments to Header.shape_type occur in %s" % owners, site=site, key="C10.first|who-writes")
 
     # --- reject -------------------------------------------------------------------------------
